@@ -46,6 +46,15 @@ def gen_ops(rng, n):
         if r < 0.62:
             dt = Fraction(rng.randrange(1, 64), 2 ** rng.randrange(0, 6))
             ops.append(('c', rng.randrange(len(names)), dt, rng.random() < 0.15))
+        elif r < 0.70:
+            # re-entrant call: traced function chain[0] calls chain[1] calls ... before returning (recursion when an
+            # index repeats); clock increments: start of level 1..k, then end of level k..0
+            k = rng.randrange(1, 4)
+            chain = [rng.randrange(len(names)) for _ in range(k + 1)]
+            if rng.random() < 0.5:
+                chain = [chain[0]] * (k + 1)
+            incs = [Fraction(rng.randrange(1, 64), 2 ** rng.randrange(0, 6)) for _ in range(2 * k + 1)]
+            ops.append(('n', chain, incs))
         elif r < 0.93:
             mh = rng.choice([None, None, 1, 2, 3, 4, 8, 100, rng.randrange(1, 6)])
             if rng.random() < 0.12:
@@ -54,6 +63,23 @@ def gen_ops(rng, n):
         else:
             ops.append(('x',))
     return ops, names
+
+
+def flatten(ops):
+    """nested calls as the equivalent sequence of plain calls in completion order: level m lasts from its own start
+    reading to its own end reading"""
+    out = []
+    for op in ops:
+        if op[0] != 'n':
+            out.append(op)
+            continue
+        _, chain, incs = op
+        k = len(chain) - 1
+        starts, ends = incs[:k], incs[k:]          # s_1..s_k ; e_k..e_0
+        for m in range(k, -1, -1):
+            dur = sum(starts[m:], Fraction(0)) + sum(ends[:k - m + 1], Fraction(0))
+            out.append(('c', chain[m], dur, False))
+    return out
 
 
 def run_real(ops, names, ctx, case):
@@ -73,6 +99,11 @@ def run_real(ops, names, ctx, case):
                 seen_args[i] = (a, k)
                 if k.get('boom'):
                     raise Boom(i)
+                ch = k.get('chain')
+                if ch:
+                    r = fns[ch[0]](*a, key=k.get('key'), boom=False, chain=ch[1:])
+                    if r is not sentinel[ch[0]]:
+                        ctx.fail('nested traced function returned a different object', case, 'return-changed')
                 return sentinel[i]
             fn.__name__ = nm
             return tr.trace()(fn)
@@ -94,6 +125,15 @@ def run_real(ops, names, ctx, case):
                 a, k = seen_args.get(i, ((), {}))
                 if len(a) != 2 or a[0] is not arg or a[1] != 7 or k.get('key') is not arg:
                     ctx.fail('arguments were not passed through unchanged', case, 'args-changed')
+            elif op[0] == 'n':
+                _, chain, incs = op
+                clock.script = [Fraction(1, 8)] + list(incs)
+                arg = object()
+                r = fns[chain[0]](arg, 7, key=arg, boom=False, chain=list(chain[1:]))
+                if r is not sentinel[chain[0]]:
+                    ctx.fail('traced function returned a different object', case, 'return-changed')
+                if clock.script:
+                    ctx.fail('the wrapper did not read the clock once at the start and once at the end of every call', case, 'clock-reads')
             elif op[0] == 'x':
                 tr.clear_trace()
             else:
@@ -142,8 +182,11 @@ def run(ctx):
             ops, names = corpus[it]
         else:
             ops, names = gen_ops(rng, rng.randrange(1, ctx.budget(25, 60)))
-        case = {'ops': [[o[0]] + [rat(x) if isinstance(x, Fraction) else x for x in o[1:]] for o in ops], 'names': names}
+        case = {'ops': [[o[0]] + [rat(x) if isinstance(x, Fraction) else ([rat(y) if isinstance(y, Fraction) else y for y in x] if isinstance(x, list) else x)
+                                  for x in o[1:]] for o in ops], 'names': names}
         outs = run_real(ops, names, ctx, case)
+        nested = any(o[0] == 'n' for o in ops)
+        ops = flatten(ops)
         ref = reference(ops, names)
         impl_strs = []
         qi = 0
@@ -186,6 +229,7 @@ def run(ctx):
         nq = sum(1 for o in ops if o[0] == 'q' and o[2] is not None)
         ctx.case(lines[-1], nontrivial=ncalls >= 3 and nq >= 1, sample=case if len(ops) < 8 else None)
         ctx.count(f'calls{min(ncalls // 5, 5)}x5')
+        ctx.count('has-nested-calls' if nested else 'flat-calls-only')
         ctx.count('has-clear' if any(o[0] == 'x' for o in ops) else 'no-clear')
         ctx.count('has-raise' if any(o[0] == 'c' and o[3] for o in ops) else 'no-raise')
         ctx.count('has-nonpositive-window' if any(o[0] == 'q' and o[2] is not None and o[2] <= 0 for o in ops) else 'windows>=1')
@@ -225,11 +269,14 @@ def replay(ctx, payload):
         for o in c['ops']:
             if o[0] == 'c':
                 ops.append(('c', o[1], Fraction(o[2]), o[3]))
+            elif o[0] == 'n':
+                ops.append(('n', list(o[1]), [Fraction(x) for x in o[2]]))
             elif o[0] == 'q':
                 ops.append(('q', o[1], o[2]))
             else:
                 ops.append(('x',))
         outs = run_real(ops, c['names'], ctx, c)
+        ops = flatten(ops)
         ref = reference(ops, c['names'])
         qi = 0
         for op in ops:
